@@ -490,6 +490,7 @@ ERR_TOKENS = {
     "Ntype": (ref.NMEA, "frame", ref.nmea_sentence("GNGGA,080247.00,5327.04300,N,00214.41385,W,x,07,1.63,36.7,M,48.5,M,,")),  # NMEATypeError
     "Utype": (ref.UBX, "frame", ref.frame(0x0B, 0x02, b"\x00")),  # AID-HUI cut inside a field: UBXTypeError
     "Umsg": (ref.UBX, "frame", ref.frame(0x06, 0x8B, bytes(9))),  # CFG-VALGET with key 0: UBXMessageError
+    "Ugrp": (ref.UBX, "frame", ref.frame(0x02, 0x15, bytes(11) + b"\x02" + bytes(4) + bytes(32) + bytes(4))),  # RXM-RAWX announcing 2 group members, cut inside the 2nd (a float field)
     "Umga": (ref.UBX, "frame", ref.frame(0x13, 0x60, b"\x07" + bytes(7))),  # MGA-ACK with a type byte no definition exists for
     # zero-length RTCM3 frames with a wrong CRC whose last byte is a frame-start byte (all 6 bytes belong to the frame)
     "RzB5": (ref.RTCM, "frame", b"\xd3\x00\x00\x47\xea\xb5"),
@@ -554,7 +555,24 @@ def token_verdict(name, cfg):
 
 
 def verdict_table(cfg):
-    return {t: token_verdict(t, cfg) for t in FRAME_TOKENS + LONG_NAMES}
+    """Stand-alone verdict of every frame token, computed in a forked child: consulting the parsers about the
+    tokens must not itself be part of the history of the process that explores the streams."""
+    import os
+    import pickle
+    r, w = os.pipe()
+    pid = os.fork()
+    if pid == 0:
+        try:
+            os.close(r)
+            with os.fdopen(w, "wb") as f:
+                pickle.dump({t: token_verdict(t, cfg) for t in FRAME_TOKENS + LONG_NAMES}, f)
+        finally:
+            os._exit(0)
+    os.close(w)
+    with os.fdopen(r, "rb") as f:
+        data = f.read()
+    os.waitpid(pid, 0)
+    return pickle.loads(data)
 
 
 def token_seqs(k, alphabet):
